@@ -58,6 +58,11 @@ pub struct World {
     pub forbidden: [bool; M],
     /// C16 assertion enabled (std configuration, readiness-tracking combinators only).
     pub c16: bool,
+    /// scripted outcome of child i's first polls, consumed left to right, 2 bits per poll:
+    /// 0 = solver's choice, 1 = Pending, 2 = Ready / item, 3 = Ready / None (streams)
+    pub force: [u16; M],
+    /// deferred violations, see `report`
+    pub viol: [bool; NV],
     /// group member i was removed by the owner (must never be polled again)
     pub removed: [bool; M],
     /// C17: stream i has an item every time it is polled
@@ -67,6 +72,8 @@ pub struct World {
     pub short: u8,
     /// children are evaluated strictly in order (chain, wait_until)
     pub sequential: bool,
+    /// the sequential family is chain (not wait_until)
+    pub seq_is_chain: bool,
     /// items produced by children during the current poll
     pub items_this_poll: u8,
     /// std configuration: really drop the combinator at the end (needs a harness without the
@@ -108,10 +115,13 @@ pub const WORLD0: World = World {
     hptr: [core::ptr::null(); M],
     forbidden: [false; M],
     c16: false,
+    force: [0; M],
+    viol: [false; NV],
     removed: [false; M],
     always: [false; M],
     short: 0,
     sequential: false,
+    seq_is_chain: false,
     items_this_poll: 0,
     drop_in_std: false,
     opts: 3,
@@ -287,17 +297,42 @@ impl Drop for Tok {
 // ---------------------------------------------------------------------------------------
 // common child bookkeeping
 
-fn on_poll(id: usize, cx: &Context<'_>) {
+/// Deferred violations. Kani's `assert!` is assert-then-assume: a failed assertion ends the
+/// path. Discipline violations (C01/C03/C10/C16/C19/C20 ...) are therefore *recorded* here and
+/// asserted by `report()` at the very end of the harness, so that a change which first trips
+/// one of them still reaches the family oracle (C04..C10) with its downstream effect, and each
+/// property's check sees its own assertion fail. After an illegal poll a scripted child
+/// behaves benignly (Pending / None), as a tolerant real child would.
+pub const V_OUTSIDE: usize = 0;
+pub const V_AFTER_DONE: usize = 1;
+pub const V_AFTER_DECIDED: usize = 2;
+pub const V_TOO_EARLY: usize = 3;
+pub const V_REMOVED: usize = 4;
+pub const V_AFTER_DROP: usize = 5;
+pub const V_C16: usize = 6;
+pub const V_LOST_WAKE: usize = 7;
+pub const V_NOT_STARTED: usize = 8;
+pub const V_WOKEN_NOT_POLLED: usize = 9;
+pub const NV: usize = 10;
+
+pub fn note(v: usize) {
+    w().viol[v] = true;
+}
+
+/// Assert that no deferred violation was recorded (called by `finish`).
+pub fn report() {
     let w = w();
-    assert!(w.in_poll, "C03: child polled outside its owner's poll");
-    if w.done[id] {
+    assert!(!w.viol[V_OUTSIDE], "C03: child polled outside its owner's poll");
+    if w.viol[V_AFTER_DONE] {
         if w.short == 4 {
             assert!(false, "C03/C07: child polled again after it completed (failed)");
+        } else if w.sequential && w.n == 2 && !w.seq_is_chain {
+            assert!(false, "C03/C19: deadline (or inner) polled again after it completed");
         } else {
             assert!(false, "C03: child polled after it completed");
         }
     }
-    if w.decided {
+    if w.viol[V_AFTER_DECIDED] {
         // the short-circuit clause is also part of the family's own property
         match w.short {
             1 => assert!(false, "C03/C06: child polled after the race was decided"),
@@ -306,25 +341,83 @@ fn on_poll(id: usize, cx: &Context<'_>) {
             _ => assert!(false, "C03: child polled after the combinator produced its final result"),
         }
     }
-    assert!(!w.forbidden[id], "C10/C19: child polled before it was allowed to");
+    assert!(
+        !w.viol[V_TOO_EARLY],
+        "C10/C19: child polled before every earlier child had finished"
+    );
+    assert!(
+        !w.viol[V_REMOVED],
+        "C03/C11/C12: member polled after it was removed from its group"
+    );
+    assert!(!w.viol[V_AFTER_DROP], "C02/C03: child polled after it was dropped");
+    assert!(
+        !w.viol[V_C16],
+        "C16: pending child re-polled although none of its wakers fired"
+    );
+    assert!(
+        !w.viol[V_LOST_WAKE],
+        "C01: child woke its waker but the task that last polled the combinator was not woken"
+    );
+    assert!(
+        !w.viol[V_NOT_STARTED],
+        "C20: combinator returned Pending although a child was never polled"
+    );
+    assert!(
+        !w.viol[V_WOKEN_NOT_POLLED],
+        "C01/C20: a woken child was not polled by the poll that followed its wake-up"
+    );
+}
+
+/// Solver-chosen fork: either report the violations recorded so far right now (this path ends
+/// at the failing assertion) or carry on towards the family oracle with them still recorded.
+/// Both the discipline assertion and the downstream oracle failure stay reachable.
+pub fn early_report() {
+    let w = w();
+    let v = &w.viol;
+    let any = v[0] || v[1] || v[2] || v[3] || v[4] || v[5] || v[6] || v[7] || v[8] || v[9];
+    if any && any_bool() {
+        report();
+    }
+}
+
+/// Returns false if the poll is illegal (the child then answers Pending / None).
+fn on_poll(id: usize, cx: &Context<'_>) -> bool {
+    let w = w();
+    let mut legal = true;
+    if !w.in_poll {
+        w.viol[V_OUTSIDE] = true;
+    }
+    if w.done[id] {
+        w.viol[V_AFTER_DONE] = true;
+        legal = false;
+    }
+    if w.decided {
+        w.viol[V_AFTER_DECIDED] = true;
+    }
+    if w.forbidden[id] {
+        w.viol[V_TOO_EARLY] = true;
+    }
     if w.sequential {
         let mut j = 0;
         while j < id {
-            assert!(
-                w.done[j],
-                "C10/C19: child polled before every earlier child had finished"
-            );
+            if !w.done[j] {
+                w.viol[V_TOO_EARLY] = true;
+            }
             j += 1;
         }
     }
-    assert!(!w.removed[id], "C11/C12: member polled after it was removed from its group");
-    assert!(w.child_state[id] == 1, "C02: child polled after drop");
-    if w.c16 {
-        assert!(
-            w.polls[id] == 0 || w.fired_any[id] || w.last_item[id] || w.rearmed[id],
-            "C16: pending child re-polled although none of its wakers fired"
-        );
+    if w.removed[id] {
+        w.viol[V_REMOVED] = true;
+        legal = false;
     }
+    if w.child_state[id] != 1 {
+        w.viol[V_AFTER_DROP] = true;
+        legal = false;
+    }
+    if w.c16 && !(w.polls[id] == 0 || w.fired_any[id] || w.last_item[id] || w.rearmed[id]) {
+        w.viol[V_C16] = true;
+    }
+    early_report();
     w.rearmed[id] = false;
     w.polls[id] = w.polls[id].saturating_add(1);
     w.last_poll_round[id] = w.round;
@@ -334,11 +427,20 @@ fn on_poll(id: usize, cx: &Context<'_>) {
     w.last_item[id] = false;
     remember_handle(id, cx.waker());
     w.clock = w.clock.saturating_add(1);
+    legal
+}
+
+/// Next forced outcome of child `id` (0 = free choice).
+fn next_forced(id: usize) -> u16 {
+    let w = w();
+    let f = w.force[id] & 3;
+    w.force[id] >>= 2;
+    f
 }
 
 /// What a scripted child does when it stays pending.
 fn pending_side_effects(id: usize, cx: &Context<'_>) {
-    let d = any_u8() & w().opts;
+    let d = any_u8() & (w().opts | 0xfc);
     if d & 1 != 0 {
         // wake myself from inside my own poll
         let w = w();
@@ -347,10 +449,10 @@ fn pending_side_effects(id: usize, cx: &Context<'_>) {
         cx.waker().wake_by_ref();
     }
     if d & 2 != 0 {
-        // wake a sibling from inside my poll (the one after me, concrete index)
+        // wake a sibling (any other child, solver's choice) from inside my poll
         let n = w().n;
-        let j = if id + 1 < n { id + 1 } else { 0 };
-        if j != id {
+        let j = ((d >> 2) & 3) as usize;
+        if j < n && j != id {
             fire_sibling(j);
         }
     }
@@ -394,8 +496,12 @@ impl Future for Fut {
     type Output = Tok;
     fn poll(self: Pin<&mut Self>, cx: &mut Context<'_>) -> Poll<Tok> {
         let id = self.id;
-        on_poll(id, cx);
-        if any_bool() {
+        if !on_poll(id, cx) {
+            return Poll::Pending;
+        }
+        let f = next_forced(id);
+        let ready = if f == 0 { any_bool() } else { f >= 2 };
+        if ready {
             let w = w();
             w.done[id] = true;
             w.ready_clock[id] = w.clock;
@@ -437,7 +543,9 @@ impl Future for TryFut {
     type Output = Result<Tok, Tok>;
     fn poll(self: Pin<&mut Self>, cx: &mut Context<'_>) -> Poll<Result<Tok, Tok>> {
         let id = self.id;
-        on_poll(id, cx);
+        if !on_poll(id, cx) {
+            return Poll::Pending;
+        }
         if any_bool() {
             let w = w();
             w.done[id] = true;
@@ -493,9 +601,22 @@ impl Stream for Strm {
     type Item = Tok;
     fn poll_next(self: Pin<&mut Self>, cx: &mut Context<'_>) -> Poll<Option<Tok>> {
         let id = self.id;
-        on_poll(id, cx);
+        if !on_poll(id, cx) {
+            return Poll::Ready(None);
+        }
+        let f = next_forced(id);
         let w = w();
-        let d = if w.always[id] { 1 } else { any_u8() };
+        let d = if w.always[id] {
+            1
+        } else if f == 1 {
+            0
+        } else if f == 2 {
+            1
+        } else if f == 3 {
+            2
+        } else {
+            any_u8()
+        };
         if d == 0 {
             pending_side_effects(id, cx);
             Poll::Pending
@@ -565,10 +686,9 @@ pub fn assert_no_lost_wake(last_round: usize, relevant: impl Fn(usize) -> bool) 
     let mut i = 0;
     while i < w.n {
         if !w.done[i] && w.child_state[i] == 1 && w.polls[i] > 0 && w.woken[i] && relevant(i) {
-            assert!(
-                w.pwakes[last_round] > 0,
-                "C01: child woke its waker but the task that last polled the combinator was not woken"
-            );
+            if w.pwakes[last_round] == 0 {
+                w.viol[V_LOST_WAKE] = true;
+            }
         }
         i += 1;
     }
@@ -579,10 +699,9 @@ pub fn assert_all_started() {
     let w = w();
     let mut i = 0;
     while i < w.n {
-        assert!(
-            w.polls[i] > 0,
-            "C20: combinator returned Pending although a child was never polled"
-        );
+        if w.polls[i] == 0 {
+            w.viol[V_NOT_STARTED] = true;
+        }
         i += 1;
     }
 }
@@ -595,10 +714,9 @@ pub fn assert_woken_were_polled(woken_before: [bool; M], relevant: impl Fn(usize
     let mut i = 0;
     while i < w.n {
         if woken_before[i] && w.child_state[i] == 1 && relevant(i) {
-            assert!(
-                w.polled_this_round[i],
-                "C01/C20: a woken child was not polled by the poll that followed its wake-up"
-            );
+            if !w.polled_this_round[i] {
+                w.viol[V_WOKEN_NOT_POLLED] = true;
+            }
         }
         i += 1;
     }
@@ -626,4 +744,5 @@ pub fn finish<T>(slot: &mut core::mem::ManuallyDrop<T>) {
         assert_children_dropped();
         assert_all_dropped();
     }
+    report();
 }
